@@ -46,6 +46,9 @@ type CtxPlan struct {
 	// SecondConn: while this connection's context ends another connection of the
 	// process is parked in its own NewConn.
 	SecondConn bool `json:"second_conn,omitempty"`
+	// Siblings > 0: another kind of plan - that many connections share ONE
+	// context (see executeSiblings); only Base, EndKind and Reps apply.
+	Siblings int `json:"siblings,omitempty"`
 	// HRRLater: after the return (and the end of the context) the backend
 	// answers with a HelloRetryRequest before the later I/O.
 	HRRLater bool   `json:"hrr_later,omitempty"`
@@ -92,6 +95,9 @@ func (h *hookCtx) Deadline() (time.Time, bool) {
 }
 
 func executeCtx(t *testing.T, prop string, seed uint64, p *CtxPlan) *core.Result {
+	if p.Siblings > 0 {
+		return executeSiblings(t, prop, seed, p)
+	}
 	res := &core.Result{Arbitrated: true}
 	cryptotest.SetGlobalRandom(t, seed)
 	b, err := buildScript(seed, &p.Base)
@@ -481,6 +487,12 @@ func genC10(seed uint64, idx int) *Plan {
 		b.NoECH, b.Expect = true, "passthrough"
 	}
 	c := &CtxPlan{Base: *b, InRead: "none", After: "none"}
+	if idx%16 == 11 {
+		c.Siblings = 3 + r.IntN(4)
+		c.EndKind = []string{"cancel", "timeout"}[r.IntN(2)]
+		c.Reps = 8
+		return &Plan{Kind: "ctx", Seed: seed, Ctx: c}
+	}
 	c.Procs = []int{1, 2, 4, 16}[idx%4]
 	c.Reps = 24
 	c.Buffered = r.IntN(2) == 0
